@@ -32,3 +32,5 @@ pub fn ct_eq_stub(a: &[u8], b: &[u8]) -> bool {
     }
     eq
 }
+#[cfg(kani)]
+mod c04;
